@@ -98,11 +98,20 @@ pub fn run_session(iwes: &Path, scratch: &Path, seed: u64) -> Result<StdioOutcom
     std::fs::create_dir_all(&dir).map_err(|e| e.to_string())?;
     let mut rng = crate::rng::Rng::stream(seed, "stdio");
     let n_notes = rng.range(2, 6);
-    for i in 1..=n_notes {
-        let t = format!("# note {}\n\n[next]({})\n\ntext über 日本 {}\n", i, i % n_notes + 1, "word ".repeat(rng.range(1, 200)));
-        std::fs::write(dir.join(format!("{}.md", i)), t).map_err(|e| e.to_string())?;
+    // session flavours: a library with raw HTML blocks and comments; a configured library path that does not exist
+    let flavour = seed % 3;
+    let lib = if flavour == 2 { dir.join("notes-that-do-not-exist") } else { dir.clone() };
+    if flavour == 2 {
+        std::fs::create_dir_all(dir.join(".iwe")).map_err(|e| e.to_string())?;
+        std::fs::write(dir.join(".iwe/config.toml"), "prompt_key_prefix = \"prompt\"\n\n[markdown]\nrefs_extension = \"\"\n\n[library]\npath = \"notes-that-do-not-exist\"\n\n[models]\n\n[actions]\n").map_err(|e| e.to_string())?;
+    } else {
+        for i in 1..=n_notes {
+            let extra = if flavour == 1 { "\n<div>\nraw html block\n</div>\n\n<!-- a comment -->\n" } else { "" };
+            let t = format!("# note {}\n\n[next]({})\n{}\ntext über 日本 {}\n", i, i % n_notes + 1, extra, "word ".repeat(rng.range(1, 200)));
+            std::fs::write(dir.join(format!("{}.md", i)), t).map_err(|e| e.to_string())?;
+        }
     }
-    let base = dir.to_string_lossy().to_string();
+    let base = lib.to_string_lossy().to_string();
     let uri = |k: &str| format!("file://{}/{}.md", base, k);
     let mut child = Command::new(iwes).current_dir(&dir).stdin(Stdio::piped()).stdout(Stdio::piped()).stderr(Stdio::null()).env_remove("LD_PRELOAD").env_remove("IWE_DEBUG").spawn().map_err(|e| format!("spawn iwes: {}", e))?;
     let mut stdin = child.stdin.take().ok_or("no stdin")?;
